@@ -84,3 +84,20 @@ end RCE.Props.C06
 
 #print axioms RCE.Props.C06.rook_slow_source_eq
 #print axioms RCE.Props.C06.bishop_slow_source_eq
+
+namespace RCE.Props.C06
+open RCE RCE.Gen
+
+/-- `Bitboard::shift_east / shift_west / trim_edges` as the source text defines them are the model's, for every board (and count) -/
+theorem shift_east_source_eq (ha : Tr.shiftEastAvail = true) (b : BB) (n : Nat) : Tr.shiftEast b n = shiftEast b n :=
+  RCE.Proofs.TranslatedChk.shiftEast_src ha b n
+theorem shift_west_source_eq (ha : Tr.shiftWestAvail = true) (b : BB) (n : Nat) : Tr.shiftWest b n = shiftWest b n :=
+  RCE.Proofs.TranslatedChk.shiftWest_src ha b n
+theorem trim_edges_source_eq (ha : Tr.trimEdgesAvail = true) (b : BB) : Tr.trimEdges b = trimEdges b :=
+  RCE.Proofs.TranslatedChk.trimEdges_src ha b
+
+end RCE.Props.C06
+
+#print axioms RCE.Props.C06.shift_east_source_eq
+#print axioms RCE.Props.C06.shift_west_source_eq
+#print axioms RCE.Props.C06.trim_edges_source_eq
